@@ -295,9 +295,6 @@ func newWorld(f *chainFx) (*world, error) {
 	if err := w.drain(base, map[string]interface{}{}); err != nil {
 		return nil, err
 	}
-	for _, b := range f.blocks {
-		eng.VerifCacheBlock(b)
-	}
 	return w, nil
 }
 
@@ -456,6 +453,10 @@ func run(env *drive.Env) error {
 		first := map[string]interface{}{"ev": "Cfg", "cert": cert, "T": f.total.Int64(), "w": stakes}
 		base := runtime.NumGoroutine()
 		w.eng.VerifStep(ucon.UConStepStart)
+		// both proposals have arrived (the first context change of a round clears the proposal cache, so only now)
+		for _, b := range f.blocks {
+			w.eng.VerifCacheBlock(b)
+		}
 		if err := w.drain(base, first); err != nil {
 			return err
 		}
